@@ -482,6 +482,37 @@ func runC02(c *Ctx) {
 			}
 		})
 	}
+	// the magnitude of a number carries no sign, negative zero included: the
+	// documented signed infinity of x / |y| follows the sign of x alone
+	c.Unit(func(u *U) {
+		zeros := map[string]func() cty.Value{
+			"float -0":  func() cty.Value { return cty.NumberFloatVal(math.Copysign(0, -1)) },
+			"0.Negate": func() cty.Value { return cty.Zero.Negate() },
+			"-5*0":     func() cty.Value { return cty.NumberIntVal(-5).Multiply(cty.Zero) },
+			"parse -0": func() cty.Value { return parseNum("-0") },
+			"0":        func() cty.Value { return cty.Zero },
+		}
+		for _, name := range []string{"float -0", "0.Negate", "-5*0", "parse -0", "0"} {
+			u.Eval(1)
+			u.Distinct("abszero" + name)
+			func() {
+				defer func() {
+					if r := recover(); r != nil {
+						u.Violation("Absolute.rejects", "num:negzero", fmt.Sprintf("Absolute of %s panicked: %v", name, r))
+					}
+				}()
+				z := zeros[name]()
+				r := z.Absolute()
+				if bf(r).Sign() != 0 || bf(r).Signbit() {
+					u.Violation("Absolute.keeps-sign", "num:negzero", fmt.Sprintf("Absolute(%s) = %s still carries a sign", name, bf(r).Text('g', 5)))
+					return
+				}
+				if q := cty.NumberIntVal(1).Divide(r); !isInf(q) || bf(q).Sign() < 0 {
+					u.Violation("Absolute.keeps-sign", "num:negzero", fmt.Sprintf("1 / Absolute(%s) = %s, expected +Inf", name, goStr(q)))
+				}
+			}()
+		}
+	})
 	// booleans
 	c.Unit(func(u *U) {
 		bs := []cty.Value{cty.True, cty.False}
@@ -523,7 +554,9 @@ func runC02(c *Ctx) {
 
 func c02Members(thorough bool) map[string][]cty.Value {
 	m := map[string][]cty.Value{
-		"n": {cty.NumberIntVal(0), cty.NumberIntVal(1), cty.NumberFloatVal(2.5), cty.NumberFloatVal(0.1), parseNum("0.1"), cty.NumberIntVal(1<<53 + 1), cty.NullVal(cty.Number)},
+		"n": {cty.NumberIntVal(0), cty.NumberIntVal(1), cty.NumberFloatVal(2.5), cty.NumberFloatVal(0.1), parseNum("0.1"), cty.NumberIntVal(1<<53 + 1), cty.NullVal(cty.Number),
+			// the same whole numbers held at different mantissa precisions
+			cty.NumberUIntVal(1 << 63), cty.NumberFloatVal(9223372036854775808), cty.NumberFloatVal(1e30), parseNum("1000000000000000019884624838656")},
 		"s": {cty.StringVal(""), cty.StringVal("a"), cty.StringVal("e\u0301"), cty.StringVal("\u00e9"), cty.StringVal("k1"), cty.NullVal(cty.String)},
 		"b": {cty.True, cty.False, cty.NullVal(cty.Bool)},
 		"L(n)": {cty.ListValEmpty(cty.Number), cty.ListVal([]cty.Value{cty.Zero}), cty.ListVal([]cty.Value{cty.Zero, cty.NumberIntVal(1)}), cty.NullVal(cty.List(cty.Number))},
@@ -560,7 +593,7 @@ func seqs(alpha []cty.Value, maxLen int, emit func([]cty.Value)) {
 	rec()
 }
 
-var c02MapKeys = []string{"k1", "k2", "e\u0301", ""}
+var c02MapKeys = []string{"k1", "e\u0301", "k2", ""}
 
 func c02Keys(thorough bool) []cty.Value {
 	ks := []cty.Value{
@@ -813,7 +846,15 @@ func c02Object(u *U, ms []cty.Value) {
 		u.Eval(1)
 		u.Distinct("obj" + goStr(v) + name)
 		want, has := ref[nfc(name)]
-		r, pan, msg := callOp(opByName("GetAttr"), []cty.Value{v, cty.StringVal(name)})
+		// the raw Go string is passed (StringVal would normalise it first)
+		r, pan, msg := func() (r cty.Value, pan bool, msg string) {
+			defer func() {
+				if x := recover(); x != nil {
+					pan, msg = true, fmt.Sprint(x)
+				}
+			}()
+			return v.GetAttr(name), false, ""
+		}()
 		switch {
 		case has && pan:
 			u.Violation("object.GetAttr-rejects-present", shape, fmt.Sprintf("GetAttr(%q) on %s panicked: %s", name, goStr(v), msg))
